@@ -257,6 +257,11 @@ def run(ctx: Ctx) -> None:
     # hit or miss is decided by set index and tag: two spellings of one address (wrapped / unwrapped) must decode alike (C03's rule)
     from .c03 import addr_rule
     addr_rule(ctx, "R09.addr")
+    # which accesses hit depends on the replacement policy the cache is (re)built with: after reset() / load_program() the data cache is
+    # the one the constructor built -- same geometry, same policy class (reset completeness, shared with C03 / C10 / C13)
+    from ..resetrule import check_reset
+    r_ = ctx.rule("R09.reset", "reset() rebuilds the data cache exactly as the constructor does (geometry and replacement policy)")
+    check_reset(ctx, r_, "BaseCacheMemorySystem", fields={"cache": "reconstruct", "memory": "delegate"})
 
 
 LOADS = {"LB": "read_byte", "LH": "read_halfword", "LW": "read_word", "LBU": "read_byte", "LHU": "read_halfword"}
